@@ -8,6 +8,13 @@ export GOFLAGS=-mod=mod GOPROXY=off GOSUMDB=off GOTOOLCHAIN=local
 export VERIF_ROOT="$(pwd)"
 REPO="${VERIF_REPO:-/repo}"
 mkdir -p bin evidence replays
+MODFLAG=""
+if [ "$REPO" != "/repo" ]; then
+  # build against another copy of the repository (used for background runs on a snapshot and for demos)
+  sed "s|=> /repo\$|=> $REPO|" go.mod > bin/alt.mod
+  cp go.sum bin/alt.sum
+  MODFLAG="-modfile=$(pwd)/bin/alt.mod"
+fi
 if [ "${1:-}" = "selftest" ]; then
   go test -count=1 ./engine/... ./mcbor/... ./refmodel/... 2>&1
   exit $?
@@ -26,7 +33,11 @@ if [ "$instr" = 1 ]; then
   ok=1
   out=$(go build -o bin/vinstr ./cmd/vinstr 2>&1) || ok=0
   if [ $ok = 1 ]; then out=$(./bin/vinstr -repo "$REPO" -rt "$(pwd)/_rt" -out "$scratch" 2>&1) || ok=0; fi
-  if [ $ok = 1 ]; then out=$(go build -tags "verif instr" -overlay "$scratch/overlay.json" -o bin/vcheck-instr ./cmd/vcheck 2>&1) || ok=0; fi
+  if [ $ok = 1 ]; then out=$(go build $MODFLAG -tags "verif instr" -overlay "$scratch/overlay.json" -o bin/vcheck-instr ./cmd/vcheck 2>&1) || ok=0; fi
+  if [ $ok = 1 ] && [ "$id" = "C17" ]; then
+    # secondary free-running pass under the race detector (uninstrumented build)
+    go build $MODFLAG -race -tags verif -o bin/vcheck-race ./cmd/vcheck >/dev/null 2>&1 || rm -f bin/vcheck-race
+  fi
   if [ $ok = 1 ]; then
     cp "$scratch/instrumentation.json" bin/instrumentation.json
     rm -rf "$scratch"; trap - EXIT
@@ -37,7 +48,7 @@ if [ "$instr" = 1 ]; then
   echo "$out" | head -20
   rm -rf "$scratch"; trap - EXIT
 fi
-out=$(go build -tags verif -o bin/vcheck ./cmd/vcheck 2>&1)
+out=$(go build $MODFLAG -tags verif -o bin/vcheck ./cmd/vcheck 2>&1)
 if [ $? -ne 0 ]; then
   echo "HARNESS-ERROR build of vcheck against $REPO failed:"
   echo "$out"
